@@ -45,7 +45,12 @@ type world struct {
 	held    map[tag]*queue.Message
 	blocked map[tag]chan error
 	closed  bool
+	// the requester's own client: subscribed a private topic (only then does its Close do anything) / closed
+	reqSubbed bool
+	reqClosed bool
 }
+
+const reqTopic = "verif-req-private"
 
 var cfg *types.Chain33Config
 
@@ -143,6 +148,13 @@ func (w *world) opSendX(i int, sync bool, expectBlock bool) string {
 	if strings.HasPrefix(res, "err:panic") {
 		out.Pred("C36|Send|panic", res)
 	}
+	// a send begun after a close has returned must fail (property: "returns an error")
+	if res == "ok" && w.reqClosed {
+		out.Pred("C36|Send|ok-after-client-close", fmt.Sprintf("Send(%d, sync=%v) returned nil after the sender's own client was closed", i, sync))
+	}
+	if res == "ok" && w.closed {
+		out.Pred("C36|Send|ok-after-close", fmt.Sprintf("Send(%d, sync=%v) returned nil after the topic/queue was closed", i, sync))
+	}
 	return res
 }
 
@@ -212,7 +224,7 @@ func (w *world) opWait(i int, expectOwn bool) string {
 	// after a close the wait must come back with an error by itself: give it a long deadline, so that a
 	// wait that would block (Wait = WaitTimeout(-1)) is told apart from one that returns `closed`
 	d := 30 * time.Millisecond
-	if w.closed {
+	if w.closed || w.reqClosed {
 		d = closeWait
 	}
 	res := gen.Guard(func() string {
@@ -225,7 +237,7 @@ func (w *world) opWait(i int, expectOwn bool) string {
 		return "panic"
 	}
 	if err == queue.ErrQueueTimeout {
-		if w.closed {
+		if w.closed || w.reqClosed {
 			out.Op(fmt.Sprintf("wait %d", i), "blocked")
 			out.Pred("C36|WaitTimeout|blocked-after-close", fmt.Sprintf("wait on request %d:%d did not return within %v after the close (Wait would block forever)", i, w.gen[i], closeWait))
 			return "timeout"
@@ -268,6 +280,72 @@ func (w *world) opCloseTopic() {
 	out.Op("closetopic", res)
 }
 
+// the requester's client subscribes a private topic of its own
+func (w *world) opSubReq() {
+	w.req.Sub(reqTopic)
+	if !w.reqClosed {
+		w.reqSubbed = true
+	}
+	out.Op("subreq", "ok")
+}
+
+// client.Close() of the requester's client, run to completion by one caller
+func (w *world) opCloseClient() {
+	done := make(chan string, 1)
+	go func() { done <- gen.Guard(func() string { w.req.Close(); return "ok" }) }()
+	res := "ok"
+	select {
+	case res = <-done:
+	case <-time.After(closeWait):
+		res = "blocked"
+		out.Pred("C36|client.Close|blocked", "requester Close did not return")
+	}
+	if res == "panic" {
+		out.Pred("C36|client.Close|panic", "a single Close call of the requester's client panicked")
+	}
+	if w.reqSubbed {
+		w.reqClosed = true
+	}
+	out.Op("closeclient", res)
+}
+
+// waitBranch: a wait in a state where two cases of WaitTimeout's select are ready (a reply is buffered AND a
+// `done` is closed): Go may take either; the op line carries the branch that was observed
+// (`wait <o> 0` = reply, `wait <o> 1` = done) and the model must allow it and agree on the output.
+func (w *world) opWaitBranch(i int) string {
+	m := w.objs[i]
+	var r *queue.Message
+	var err error
+	res := gen.Guard(func() string {
+		r, err = w.req.WaitTimeout(m, closeWait)
+		return ""
+	})
+	if res == "panic" {
+		out.Op(fmt.Sprintf("wait %d", i), "panic")
+		out.Pred("C36|WaitTimeout|panic", fmt.Sprintf("obj %d", i))
+		return "panic"
+	}
+	if err == queue.ErrQueueTimeout {
+		out.Op(fmt.Sprintf("wait %d", i), "blocked")
+		out.Pred("C36|WaitTimeout|blocked-after-close", fmt.Sprintf("wait on answered request %d:%d did not return within %v after the close", i, w.gen[i], closeWait))
+		return "timeout"
+	}
+	if err != nil {
+		out.Op(fmt.Sprintf("wait %d 1", i), errName(err))
+		return errName(err)
+	}
+	p, ok := r.Data.(*payload)
+	if !ok {
+		out.Op(fmt.Sprintf("wait %d 0", i), "unexpected-reply")
+		return "unexpected"
+	}
+	out.Op(fmt.Sprintf("wait %d 0", i), p.t.String())
+	if p.t != (tag{i, w.gen[i]}) {
+		out.Pred("C36|WaitTimeout|foreign-reply", fmt.Sprintf("request %d:%d received the reply produced for %s", i, w.gen[i], p.t))
+	}
+	return p.t.String()
+}
+
 func (w *world) opCloseQueue() {
 	done := make(chan struct{})
 	go func() { w.q.Close(); close(done) }()
@@ -299,6 +377,9 @@ const (
 // disciplined request/reply traffic with recycling; optionally closes the topic or queue midway
 func scenarioRR(r *gen.Rand, steps int, closeKind int) {
 	w := newWorld(true)
+	if closeKind == 3 {
+		w.opSubReq()
+	}
 	ph := map[int]phase{}
 	var fifo []int // ids in the high channel, oldest first
 	live := func(p phase) []int {
@@ -324,12 +405,16 @@ func scenarioRR(r *gen.Rand, steps int, closeKind int) {
 	}
 	for s := 0; s < steps; s++ {
 		if s == closeAt {
-			if closeKind == 1 {
+			switch closeKind {
+			case 1:
 				w.opCloseTopic()
-			} else {
+				fifo = nil
+			case 2:
 				w.opCloseQueue()
+				fifo = nil
+			case 3: // the requester's own client: the topic stays open, the subscriber goes on receiving/answering
+				w.opCloseClient()
 			}
-			fifo = nil
 		}
 		switch r.Pick(5, 5, 4, 4, 5, 3, 1) {
 		case 0: // new
@@ -364,9 +449,10 @@ func scenarioRR(r *gen.Rand, steps int, closeKind int) {
 		case 4: // wait
 			cands := append(live(pReplied), live(pQueued)...)
 			cands = append(cands, live(pHeld)...)
-			if w.closed {
-				// with the topic closed, a Wait on a message whose reply is buffered may return either
-				// (Go select picks at random): only wait on messages without a buffered reply
+			if w.closed || w.reqClosed {
+				// with the topic (or the requester's client) closed, a Wait on a message whose reply is buffered
+				// may return either (Go select picks at random): here only wait on messages without a buffered
+				// reply; scenarioRacyWait exercises the race
 				cands = append(live(pQueued), live(pHeld)...)
 			}
 			if len(cands) > 0 {
@@ -386,7 +472,7 @@ func scenarioRR(r *gen.Rand, steps int, closeKind int) {
 				delete(ph, i)
 			}
 		case 6: // timeout on something not answered yet
-			if l := append(live(pQueued), live(pHeld)...); len(l) > 0 && !w.closed {
+			if l := append(live(pQueued), live(pHeld)...); len(l) > 0 && !w.closed && !w.reqClosed {
 				w.opWait(l[r.Intn(len(l))], true)
 			}
 		}
@@ -395,6 +481,137 @@ func scenarioRR(r *gen.Rand, steps int, closeKind int) {
 		w.opCloseQueue()
 	}
 	out.Stat("scenario_rr", 1)
+}
+
+// the requester's client is closed: Close without a subscribed topic is a no-op; with one, every later send
+// fails and every wait on an unanswered request returns `closed` (reachability of `clientClosed` in the model)
+func scenarioClientClose(r *gen.Rand) {
+	w := newWorld(true)
+	w.opCloseClient() // client.topic == nil: returns at once, nothing is closed
+	i0 := w.opNew()
+	w.opSend(i0, true) // ... so this still goes through
+	w.opSubReq()
+	i1 := w.opNew()
+	w.opSend(i1, true)
+	nrecv := r.Intn(3) // 0, 1 or 2 of the two requests are in a responder's hands at the close; none is answered
+	for k := 0; k < nrecv; k++ {
+		w.opRecv(true)
+	}
+	if r.Bool() {
+		w.opWait(i0, true) // times out before the close
+	}
+	w.opCloseClient()
+	w.opWait(i0, true) // closed (ErrIsQueueClosed via client.done)
+	w.opWait(i1, true)
+	i2 := w.opNew()
+	w.opSend(i2, true) // closed (ErrIsQueueClosed)
+	i3 := w.opNew()
+	w.opSend(i3, false)
+	w.opCloseClient() // second Close: isClosed == 1, returns at once
+	w.opSubReq()      // Sub on a closed client: returns at once
+	w.opWait(i1, true)
+	w.opCloseQueue()
+	out.Stat("scenario_clientclose", 1)
+}
+
+// a reply is buffered when the topic / queue / requester's client is closed: WaitTimeout's select has two ready
+// cases. Whatever Go picks must be a branch of the model, and a reply must be the request's own. A wait that
+// took the `done` branch leaves the reply buffered: wait again (bounded) until the reply comes out.
+func scenarioRacyWait(kind int) {
+	w := newWorld(true)
+	if kind == 2 {
+		w.opSubReq()
+	}
+	i := w.opNew()
+	w.opSend(i, true)
+	t, ok := w.opRecv(true)
+	if !ok {
+		return
+	}
+	w.opReply(t)
+	switch kind {
+	case 0:
+		w.opCloseTopic()
+	case 1:
+		w.opCloseQueue()
+	case 2:
+		w.opCloseClient()
+	}
+	for k := 0; k < 8; k++ {
+		res := w.opWaitBranch(i)
+		if k == 0 {
+			if res == "closed" {
+				out.Stat("racy_wait_done_branch_first", 1)
+			} else {
+				out.Stat("racy_wait_reply_branch_first", 1)
+			}
+		}
+		if res != "closed" {
+			break
+		}
+	}
+	if kind != 1 {
+		w.opCloseQueue()
+	}
+	out.Stat("scenario_racywait", 1)
+}
+
+// "... or crashing": two overlapping Close calls of one subscribed client. Both can pass the
+// `isClosed == 1 || topic == nil` check (isClosed is set only at the end of Close), and the second
+// close(client.done) panics. Lean: `never_panics_full_false`; when the panic is observed the witness schedule
+// is written out as op lines so that the model is shown to produce the same outcome.
+func probeDoubleClose(tries int, prefix bool) {
+	q := queue.New("verif-dclose")
+	q.SetConfig(cfg)
+	defer q.Close()
+	observed := ""
+	at := -1
+	for k := 0; k < tries && observed == ""; k++ {
+		c := q.Client()
+		c.Sub(fmt.Sprintf("verif-dclose-%d", k))
+		start := make(chan struct{})
+		res := make(chan string, 2)
+		for g := 0; g < 2; g++ {
+			go func() {
+				defer func() {
+					if e := recover(); e != nil {
+						res <- fmt.Sprint(e)
+						return
+					}
+					res <- ""
+				}()
+				<-start
+				c.Close()
+			}()
+		}
+		close(start)
+		for g := 0; g < 2; g++ {
+			select {
+			case m := <-res:
+				if m != "" {
+					observed = m
+					at = k
+				}
+			case <-time.After(longWait):
+				out.Pred("C36|client.Close|blocked", "one of two concurrent Close calls did not return")
+			}
+		}
+	}
+	out.Stat("doubleclose_tries", int64(tries))
+	if observed == "" {
+		out.Stat("doubleclose_no_panic_observed", 1)
+		return
+	}
+	out.Stat("doubleclose_panic_observed", 1)
+	if prefix {
+		out.Op("reset", "ok")
+		out.Op("subreq", "ok")
+	}
+	out.Op("closeenter", "blocked")
+	out.Op("closeenter", "blocked")
+	out.Op("closedone", "blocked")
+	out.Op("closedone", "panic")
+	out.Pred("C36|client.Close|panic-on-concurrent-close", fmt.Sprintf("two goroutines calling Close() on the same subscribed client: panic %q (attempt %d)", observed, at))
 }
 
 // the undisciplined witness of the Lean theorem `discipline_necessary`, on the real code
@@ -591,18 +808,26 @@ func main() {
 	scenarioFull(false)
 	n := gen.Scale(12, 150)
 	for k := 0; k < n; k++ {
-		scenarioRR(r, 40+r.Intn(60), k%3)
+		scenarioRR(r, 40+r.Intn(60), k%4)
 	}
+	for k := 0; k < gen.Scale(3, 12); k++ {
+		scenarioClientClose(r)
+	}
+	for k := 0; k < gen.Scale(9, 60); k++ {
+		scenarioRacyWait(k % 3)
+	}
+	probeDoubleClose(gen.Scale(400, 4000), true)
 	for k := 0; k < gen.Scale(6, 60); k++ {
 		stress(r, 2+r.Intn(6), 1+r.Intn(3), 200+r.Intn(400), k%2 == 1)
 	}
-	out.Sample("scripted: new/send/recv/reply/wait/free on pooled queue messages; stress: requesters x responders with timeouts then close")
+	out.Sample("scripted: new/send/recv/reply/wait/free on pooled queue messages, close of topic / queue / requester's client; racy wait after close (observed branch checked against the model); two concurrent Close calls; stress: requesters x responders with timeouts then close")
 }
 
 // replay executes op lines of the wire grammar literally (ids must be consistent with what the pool
 // hands out; `new` lines are matched against the observed object).
 func replay(lines []string) {
 	var w *world
+	dclose := false
 	for _, l := range lines {
 		f := strings.Fields(l)
 		if len(f) == 0 {
@@ -636,8 +861,22 @@ func replay(lines []string) {
 		case "wait", "timeout":
 			fmt.Sscan(f[1], &a)
 			if a < len(w.objs) {
-				w.opWait(a, false)
+				if len(f) > 2 {
+					w.opWaitBranch(a)
+				} else {
+					w.opWait(a, false)
+				}
 			}
+		case "subreq":
+			w.opSubReq()
+		case "closeclient":
+			w.opCloseClient()
+		case "closeenter":
+			if !dclose {
+				dclose = true
+				probeDoubleClose(4000, false)
+			}
+		case "closedone", "closefinish":
 		case "free":
 			fmt.Sscan(f[1], &a)
 			fmt.Sscan(f[2], &b)
